@@ -19,12 +19,19 @@ import (
 	"sync/atomic"
 	"syscall"
 	"time"
+
+	"github.com/cloudwego/netpoll/internal/runner"
 )
 
 var (
 	vcModes   = []string{"user", "peer", "peeruser", "detach"}
+	// close modes that go through an OnRequest HANDLER (the handler is started by 10 bytes of input; the cell's `in` column
+	// says whether it leaves them unread): huser = the handler calls Close and returns; huserp = it calls Close and then
+	// panics; hpeer = the peer closes while the handler runs, the handler consumes the input and returns; hpeerp = the peer
+	// closes while the handler runs and the handler then panics; hpanic = the handler panics on the still active connection.
+	vcHModes = []string{"huser", "huserp", "hpeer", "hpeerp", "hpanic"}
 	vcMethods = []string{"next", "peek", "skip", "rstr", "rbin", "rbyte", "slice", "rel", "len", "until", "read",
-		"malloc", "mlen", "flush", "ack", "append", "wstr", "wbin", "wdir", "wbyte", "write", "isactive", "close"}
+		"malloc", "mlen", "flush", "ack", "append", "wstr", "wbin", "wdir", "wbyte", "write", "isactive", "close", "detach"}
 )
 
 const vcInBytes = 10
@@ -152,6 +159,8 @@ func vcCall(c *connection, meth string, arg int) (out string) {
 			}
 		case "close":
 			done <- plain(c.Close())
+		case "detach":
+			done <- plain(c.Detach())
 		default:
 			done <- "bad-method"
 		}
@@ -185,6 +194,37 @@ func vcCell(mode string, cb, in, outp, reuse, tmo bool, meth string, arg, rep in
 	closed := make(chan struct{}, 1)
 	connected := make(chan struct{}, 1)
 	opts := &options{}
+	hmode := strings.HasPrefix(mode, "h")
+	entered, proceed, taskOver := make(chan struct{}, 1), make(chan struct{}), make(chan struct{}, 64)
+	if hmode {
+		calls := 0
+		opts.onRequest = func(ctx context.Context, conn Connection) error {
+			calls++
+			rd := conn.Reader()
+			if calls > 1 {
+				// called again because input is left on a connection the peer closed: consume it
+				rd.Skip(rd.Len())
+				rd.Release()
+				return nil
+			}
+			entered <- struct{}{}
+			<-proceed
+			if !in {
+				rd.Skip(rd.Len())
+				rd.Release()
+			}
+			if mode == "huser" || mode == "huserp" {
+				conn.Close()
+			}
+			if mode == "huserp" || mode == "hpeerp" || mode == "hpanic" {
+				panic("verif: handler panic")
+			}
+			return nil
+		}
+		// learn when the handler task is over, and keep its panic from the pool's logger: the REAL runner still runs the task
+		ctxKey := vcTaskKey{}
+		opts.onPrepare = func(Connection) context.Context { return context.WithValue(context.Background(), ctxKey, taskOver) }
+	}
 	if cb {
 		opts.onConnect = func(ctx context.Context, conn Connection) context.Context {
 			connected <- struct{}{}
@@ -209,7 +249,7 @@ func vcCell(mode string, cb, in, outp, reuse, tmo bool, meth string, arg, rep in
 			return "setup-failed connect-task"
 		}
 	}
-	if in {
+	if in && !hmode {
 		if _, err := syscall.Write(peer, vGenBytes(3, vcInBytes, 0)); err != nil {
 			return "setup-failed write"
 		}
@@ -243,6 +283,41 @@ func vcCell(mode string, cb, in, outp, reuse, tmo bool, meth string, arg, rep in
 		return vcWait(func() bool {
 			return atomic.LoadUint32(&c.closed) > 0 && c.outputBuffer.Len() == 0 && vcHeadNil(c.outputBuffer)
 		})
+	}
+	if hmode {
+		// the input starts the handler; the close happens while it runs
+		if _, err := syscall.Write(peer, vGenBytes(3, vcInBytes, 0)); err != nil {
+			return "setup-failed write"
+		}
+		select {
+		case <-entered:
+		case <-time.After(2 * time.Second):
+			return "setup-failed handler"
+		}
+		if !vcWait(func() bool { return c.inputBuffer.Len() == vcInBytes }) {
+			return "setup-failed input"
+		}
+		if mode == "hpeer" || mode == "hpeerp" {
+			syscall.Close(peer)
+			peerOpen = false
+			if !vcWait(func() bool { return !c.IsActive() }) {
+				return "setup-failed hup"
+			}
+		}
+		close(proceed)
+		// the task ends (normally or by the panic), and the teardown it ran has completed
+		if !waitClosed() {
+			return "setup-failed close-callback"
+		}
+		tdl := time.After(2 * time.Second)
+		for over := false; !over; {
+			select {
+			case <-taskOver:
+				over = c.isUnlock(connecting)
+			case <-tdl:
+				return "setup-failed handler-task"
+			}
+		}
 	}
 	switch mode {
 	case "user":
@@ -332,11 +407,36 @@ func vcCell(mode string, cb, in, outp, reuse, tmo bool, meth string, arg, rep in
 			if p, err := b.Next(4); err != nil || string(p) != "ping" {
 				bstat = " B=stalled"
 			}
+			b.Close()
 		}()
-		b.Close()
 		syscall.Close(bpeer)
 	}
 	return strings.Join(outs, " | ") + bstat
+}
+
+type vcTaskKey struct{}
+
+// vcWrapRunTask wraps (does not replace) the task runner: a task of a connection whose context carries a vcTaskKey channel
+// recovers its own panic (what gopool's worker would do, minus the log) and reports its end on that channel.
+func vcWrapRunTask() {
+	orig := runner.RunTask
+	runner.RunTask = func(ctx context.Context, f func()) {
+		ch, _ := ctx.Value(vcTaskKey{}).(chan struct{})
+		if ch == nil {
+			orig(ctx, f)
+			return
+		}
+		orig(ctx, func() {
+			defer func() {
+				recover()
+				select {
+				case ch <- struct{}{}:
+				default:
+				}
+			}()
+			f()
+		})
+	}
 }
 
 // VerifClosedMain: closedh -ops-out F -impl-out F [-replay F] [-shard i -shards n]
@@ -351,6 +451,7 @@ func VerifClosedMain(args []string) int {
 		return 2
 	}
 	SetNumLoops(1)
+	vcWrapRunTask()
 	io_, err := os.Create(*implOut)
 	if err != nil {
 		fmt.Fprintln(os.Stderr, err)
@@ -371,7 +472,14 @@ func VerifClosedMain(args []string) int {
 		// watchdog: a cell that never returns (e.g. a Close spinning on a token that was never given back)
 		// is reported as stuck and abandoned; the harness goes on with the next cell
 		ch := make(chan string, 1)
-		go func() { ch <- vcCell(t[1], atob(t[2]), atob(t[3]), atob(t[4]), atob(t[5]), atob(t[6]), t[7], arg, rep) }()
+		go func() {
+			defer func() {
+				if r := recover(); r != nil {
+					ch <- fmt.Sprintf("panic outside the calls: %v", r)
+				}
+			}()
+			ch <- vcCell(t[1], atob(t[2]), atob(t[3]), atob(t[4]), atob(t[5]), atob(t[6]), t[7], arg, rep)
+		}()
 		select {
 		case r := <-ch:
 			return r
@@ -454,6 +562,36 @@ func VerifClosedMain(args []string) int {
 									}
 								}
 							}
+						}
+					}
+				}
+			}
+		}
+	}
+	// handler modes: OnRequest set (OnConnect not), every method with a short and a long argument, each called twice
+	for _, mode := range vcHModes {
+		for _, in := range []bool{false, true} {
+			if in && mode == "hpeer" {
+				continue // a handler that returns is called again until it has consumed the input of a peer-closed connection
+			}
+			for _, outp := range []bool{false, true} {
+				for _, reuse := range []bool{false, true} {
+					for _, meth := range vcMethods {
+						argv := []int{4}
+						switch meth {
+						case "next", "peek", "skip", "rstr", "rbin", "slice", "read":
+							argv = []int{4, 20}
+						case "until":
+							argv = []int{255, int(vGenByte(3, 6))}
+						}
+						for _, arg := range argv {
+							k++
+							if k%*shards != *shard {
+								continue
+							}
+							line := fmt.Sprintf("cell %s 0 %s %s %s 0 %s %d 2", mode, b2s(in), b2s(outp), b2s(reuse), meth, arg)
+							fmt.Fprintln(ow, line)
+							fmt.Fprintln(iw, runLine(line))
 						}
 					}
 				}
